@@ -7,35 +7,44 @@ IMP_RULE = ('each case: a source history of 1..10 operations generated online on
             '12 equal/different flags (source vs copy) after every accepted import, complete final state of the copy. non-trivial = source with >= 2 logs. '
             'Reverts are forced in this tie (Core.v models the nil-map panic of a non-forced revert more strictly than the real GetBalances behaves on some multi-asset inputs).')
 IMP_TRUST = HIST_TRUST + ['hash column in the extracted model: H = identity over a length-prefixed rendering of the fields of the real pre-image (collision-free stand-in for SHA-256; the theorems hold for every H)']
-IMP_NOTE = ('Trusted: Coq kernel; extraction; pgsem; the Go harness. Model Ledger/Import.v layered on Ledger/Core.v. NOT proved: the table-level round trip over all histories '
-            '(only the hash column, the facade/sequence lemmas, witnesses and a concrete example are theorems); the tie compares the COMPLETE copy with the model on every run.')
+IMP_NOTE = ('Trusted: Coq kernel; extraction; pgsem; the Go harness. Model Ledger/Import.v layered on Ledger/Core.v. ')
 
 PROPS['C11'] = dict(
     target='Props/C11',
-    theorems=['C11_hashes_roundtrip', 'C11_hash_check_sound', 'C11_writable_single', 'C11_resync_above', 'C11_refuted_first_usage', 'C11_refuted_updated_at',
-              'C11_refuted_atomic_writable', 'C11_refuted_atomic_log_id'],
+    theorems=['C11_roundtrip', 'C11_tx_core_fields', 'C11_av_fields', 'C11_roundtrip_moves', 'C11_roundtrip_accounts_partial', 'C11_roundtrip_tables_partial', 'C11_hashes_roundtrip', 'C11_hash_check_sound', 'C11_writable_single', 'C11_resync_above', 'C11_refuted_first_usage', 'C11_refuted_updated_at',
+              'C11_writable_atomic', 'C11_atomic_after_import_next_ids', 'C11_atomic_after_import_log_order', 'C11_unrepaired_atomic_writable', 'C11_unrepaired_atomic_log_id'],
     ties=[dict(name='TIE-D importx', vh='importx', model='importx', n=dict(quick=400, thorough=10000), kinds=['C11'], case_head='importx', timeout=dict(quick=600, thorough=6000))],
     rule=IMP_RULE,
-    explanation='FULL statement refuted in three places by the faithful model, each confirmed on the real stack (known_findings.d/import.json): SET_METADATA on an account lowers first_usage to the log date '
-                '(C11_refuted_first_usage), DELETE_METADATA on an account is dated at the import in updated_at and in the metadata history (C11_refuted_updated_at), an ATOMIC bulk on the still-initializing copy '
-                'uses never-resynchronised sequences: primary-key collision -> nil dereference in InsertTransaction / runLog, or a log id below the imported ones (C11_refuted_atomic_writable, C11_refuted_atomic_log_id; S-11). '
-                'Proved: the exported hash chain passes importLog\'s comparison and rebuilds the hash column for EVERY hash function (C11_hashes_roundtrip via C09\'s chain invariant), the comparison is sound, '
-                'the first committed facade write flips the state and gets ids above every stored id (C11_writable_single, C11_resync_above). NOT proved: table-level round trip over all histories (tie only: model = real stack on the complete copy).',
+    explanation='PROVED for every feature set, history, hash function and import time (C11_roundtrip, per-log simulation of importLog against Core.step + induction over the history + C09 chain invariant): '
+                'the import of the export into the pristine ledger is accepted, leaves it initializing and reproduces volumes, every column of the transactions table except effective volumes (ids, postings, current metadata, '
+                'timestamps, references, inserted_at, updated_at, reverted_at, post-commit volumes), the transaction metadata history, the logs, the hash column and, of every account row, address, current metadata and insertion date. Under hypotheses: moves table + effective volumes when the history has no dry run or MOVES_HISTORY is off '
+                '(C11_roundtrip_moves; otherwise only moves.seq is renumbered, compared modulo seq by the tie); first usage / updated_at of accounts (the whole accounts table) + account metadata history when the history has no SET/DELETE_METADATA on accounts '
+                '(C11_roundtrip_accounts_partial); all tables identical under both (C11_roundtrip_tables_partial). FULL statement REFUTED without the accounts hypothesis, confirmed on the real stack (known_findings.d/import.json): '
+                'SET_METADATA on an account lowers first_usage to the log date (C11_refuted_first_usage), DELETE_METADATA on an account is dated at the import in updated_at and in the metadata history (C11_refuted_updated_at). '
+                'Writability: first committed facade write flips the state and draws log id = max+1 and transaction id = max+1 (C11_writable_single; bulk elements are such writes); the ATOMIC bulk follows the same protocol since the repair fixes/01-facade-begintx (C11_writable_atomic: a one-element atomic bulk IS the facade write). '
+                'Before the repair (S-11, confirmed on the real stack, finding fixed): never-resynchronised sequences, primary-key collision -> nil dereference in InsertTransaction / runLog, or a log id below the imported ones (C11_unrepaired_atomic_writable, C11_unrepaired_atomic_log_id).',
     trusted=IMP_TRUST,
-    technique='Coq proofs (hash-chain induction, case analysis of the state tracker, vm_compute witnesses) about an executable model of Export/Import/importLog/handleState/Bulker + differential run against the real stack + source-vs-copy monitor',
-    level_text='Theorems: hash part of the round trip for every hash function and history; writability through the facade; three refutations of the full statement reproduced on the real code. '
-               'The table-level round trip is checked by the tie on every generated case (all tables of the copy = model), not proved.',
+    technique='Coq proofs (per-log simulation relation between the write path and importLog, induction over histories, hash-chain induction, case analysis of the state tracker, vm_compute witnesses) about an executable model of Export/Import/importLog/handleState/Bulker + differential run against the real stack + source-vs-copy monitor',
+    level_text='Unbounded theorems: the round trip for every history, feature set and hash function on volumes, transactions (all columns but effective volumes), transaction metadata history, logs and hashes; moves/effective volumes and accounts under stated hypotheses; writability through the facade with ids = max+1; refutations of the remaining parts reproduced on the real code.',
     level_note=IMP_NOTE)
 
 PROPS['C12'] = dict(
     target='Props/C12',
-    theorems=['C12_only_pristine', 'C12_after_write_rejected', 'C12_monotone', 'C12_import_keeps_state', 'C12_partial_atomic_never_flips', 'C12_refuted_atomic_bypass'],
+    theorems=['C12_only_pristine', 'C12_after_write_rejected', 'C12_after_bulk_write_rejected', 'C12_monotone', 'C12_import_keeps_state', 'C12_atomic_flips_or_no_effect', 'C12_after_atomic_write_rejected', 'C12_unrepaired_atomic_never_flips', 'C12_unrepaired_atomic_bypass'],
     ties=[dict(name='TIE-D importx', vh='importx', model='importx', n=dict(quick=400, thorough=10000), kinds=['C12'], case_head='importx', timeout=dict(quick=600, thorough=6000))],
     rule=IMP_RULE,
     explanation='Sequential part proved for every hash function: accepted => initializing and every stored log id below every imported id (C12_only_pristine); after a committed facade write every import is refused with no effect '
-                '(C12_after_write_rejected); in-use is absorbing for all three write paths and imports (C12_monotone). REFUTED for the atomic-bulk path (C12_refuted_atomic_bypass, confirmed on the real stack, known finding): '
-                'the facade inherits BeginTX, the bulk commits without flipping the state, a later import is accepted and changes the ledger. The concurrent part is reduced to the hook stated in Props/C12.v (lock held by Import for its whole duration); schedules are not explored by this check.',
+                '(C12_after_write_rejected; C12_after_bulk_write_rejected for a non-atomic bulk with an accepted element); in-use is absorbing for all three write paths and imports (C12_monotone). Atomic bulk: since the repair fixes/01-facade-begintx it commits and leaves the ledger in-use, or has no effect (C12_atomic_flips_or_no_effect, C12_after_atomic_write_rejected). Before the repair (S-11, confirmed on the real stack, finding fixed; C12_unrepaired_atomic_bypass): '
+                'the facade inherited BeginTX, the bulk committed without flipping the state, a later import was accepted and changed the ledger. The concurrent part is reduced to the hook stated in Props/C12.v (lock held by Import for its whole duration); schedules are not explored by this check.',
     trusted=IMP_TRUST,
     technique='Coq proofs (case analysis of the state tracker, fold invariants on the id checks, vm_compute witness) + differential run of import/write scripts against the real stack + rejected-without-effect monitor',
-    level_text='Unbounded theorems about the sequential model of the state tracker and Import; one refutation (atomic bulk bypass) reproduced on the real code. Interleavings are not covered here.',
+    level_text='Unbounded theorems about the sequential model of the state tracker and Import; the atomic-bulk bypass found by the check was repaired (fixes/01-facade-begintx). Interleavings are not covered here.',
     level_note=IMP_NOTE)
+
+# C14 on the import path: streams that reuse a non-empty reference (the export followed by its copy with ids shifted above it in ONE stream; the shifted copy on top of
+# the imported export; on top of an atomic bulk holding the reference). Monitor: the import stops at that log with the reference-conflict error (errors.Is against
+# ledgerstore / ledgercontroller ErrTransactionReferenceConflict), the transaction is not stored, no two stored transactions share a reference.
+PROPS['C14']['ties'].append(dict(name='TIE-D importx refs', vh='importx', model='importx', n=dict(quick=150, thorough=4000), args=dict(all=['-profile', 'refs']),
+                                 kinds=['C14'], case_head='importx', timeout=dict(quick=600, thorough=6000)))
+PROPS['C14']['explanation'] += (' Import path (the quantifier includes imports): the importx tie presents Import with NEW_TRANSACTION logs reusing a stored reference; model Ledger/Import.v:imp_commit '
+                                '(IEReference, no effect) = real stack, and the monitor requires the reference-conflict error kind.')
